@@ -226,7 +226,7 @@ def main():
             ck.mismatch("driver model and gopatch disagree (%s): %s" % (sc.name, "; ".join(r["mismatches"][:3])),
                         dict(rep, mismatches=r["mismatches"]), "corr:cli/run (Model/Cli.v run vs main.go mainCmd.Run)")
     # missing path / missing patch: reported, nothing processed
-    for what in ("missing-path", "missing-patch"):
+    for what in ("missing-path", "missing-patch", "missing-list", "list-names-missing-patch", "list-names-bad-patch", "only-list-names-missing-patch"):
         for v in (False, True):
             sc = Scenario(PATCHES[:1], {"a.go": ok_src(0), "b.go": ok_src(1)}, {"verbose": v}, name=what)
             root = vlib.scratch("mp")
@@ -238,16 +238,30 @@ def main():
                 if what == "missing-path":
                     argv = argv + ["nope/missing.go"]
                     name = "nope/missing.go"
-                else:
+                elif what == "missing-patch":
                     argv = ["-p", os.path.join(root, "patches", "absent.patch")] + argv
                     name = "absent.patch"
+                else:
+                    # a list of patches (-P) next to a good -p (or alone): the list, or a patch it names, cannot be loaded
+                    lst = os.path.join(root, "patches", "list.txt")
+                    cause = b"no such file"
+                    if what == "missing-list":
+                        name = "list.txt"
+                    elif what.endswith("missing-patch"):
+                        open(lst, "w").write(os.path.join(root, "patches", "absent.patch") + "\n")
+                        name = "absent.patch"
+                    else:
+                        open(os.path.join(root, "patches", "broken.patch"), "w").write("this is not a patch\n")
+                        open(lst, "w").write(os.path.join(root, "patches", "broken.patch") + "\n")
+                        name = "broken.patch"; cause = b"broken.patch"
+                    argv = (["-P", lst] + argv[2:]) if what.startswith("only-") else (argv[:2] + ["-P", lst] + argv[2:])
                 rc, out, err = vlib.run_gopatch(argv, cwd)
                 after = clicorr.snapshot(cwd)
                 ck.count((what, v)); ck.tally("phase", what)
                 rep = {"argv": argv, "rc": rc, "stderr": err.decode("utf-8", "replace")}
                 if rc == 0:
                     ck.violation("%s: exit status 0" % what, rep)
-                if name.encode() not in err or b"no such file" not in err:
+                if name.encode() not in err or (cause if what not in ("missing-path", "missing-patch") else b"no such file") not in err:
                     ck.violation("%s: stderr does not name the path and the cause: %r" % (what, err[:300]), rep)
                 if before != after:
                     ck.violation("%s: files were modified although the run was refused" % what, rep)
